@@ -9,14 +9,74 @@ props = [json.loads(l) for l in open(os.path.join(V, "properties.jsonl"))]
 CLAIMED = {
     "C01": ("model_checking",
             "explicit-state BFS of the real HashMap to a fixpoint, against an association-list model",
-            "Every operation history of any length over a bounded key universe (closed search to a fixpoint, both group back-ends, hash plans from all-colliding to one-key-per-bucket) is executed on the real HashMap; every return value, the full contents, every lookup through both key forms and the structure invariants S1-S9 are compared in every state. A fixpoint covers histories of unbounded length, which no test can sample.",
+            "Every operation history of any length over a bounded key universe (closed search to a fixpoint, both group back-ends, hash plans from all-colliding to one-key-per-bucket, plus depth-bounded searches around scripted full/tombstoned seeds) is executed on the real HashMap; every return value, the full contents, every lookup through both key forms and the structure invariants S1-S9 are compared in every state. A fixpoint covers histories of unbounded length, which no test can sample.",
             "Bounded key universe and hash-plan grid; tables up to 64 buckets; symmetry reduction justified by parametricity (DESIGN 3.7).",
             "5 (C01)"),
+    "C02": ("model_checking",
+            "explicit-state BFS over element-layout grid x collections with memory monitors and leak probes in every state",
+            "For 9 element layouts (size 0..200, align 1..64, with and without drop glue) x HashSet/HashMap/HashTable, every history of the core alphabet is explored to a fixpoint and in every state every iterator/drain/extract_if/into_iter/entry is advanced j steps (all j) and mem::forget-ten, after which the collection must still be valid, usable and droppable. Memory safety is decided by the structure invariants that the unsafe core's SAFETY comments rely on (items == FULL bytes, an EMPTY byte exists, mirror bytes), a checking allocator (red zones, poison, quarantine, layout and alignment checks), padding/alignment integrity of every yielded element and a live-element registry, with debug assertions and std's UB precondition checks on.",
+            "UB that changes no invariant and trips no monitor is invisible to the quick tier (thorough adds an AddressSanitizer run of the same exploration); panicking callbacks are C04's part.",
+            "5 (C02)"),
+    "C03": ("model_checking",
+            "explicit-state BFS with element registry and allocator ledger; consumption-cut probes in every state",
+            "Closed searches with tracked keys and values over the full HashMap alphabet (overwrite, remove, clear, retain, shrink, clone_from into empty/smaller/same/bigger/tombstoned targets, from_iter), the HashTable alphabet (extract_if/drain cut at 0, 1, all) and 200-byte drop-glue elements in all three collections; in every state every owning iterator is consumed to every cut point and dropped, and every predicate subset is applied to retain/extract_if. Every run ends by dropping the collection and requires the registry (each element dropped or handed out exactly once) and the allocator ledger (each block returned once with its layout, nothing outstanding) to balance.",
+            "Bounded universes; drop order is not checked, only exactly-once.",
+            "5 (C03)"),
     "C04": ("fault_enumeration",
             "exhaustive single-fault injection (every callback class x every k) over model-checked states of the real HashMap",
             "For every state of a closed (or seeded) explicit-state search, every operation of the full HashMap alphabet and every k, the k-th invocation of each user-callback class (Hash, BuildHasher, Eq/Equivalent, Clone, Drop, closures, Into, extend-iterator next, Default) panics; after catch_unwind the structure invariants, len == yielded == found, present-or-dropped-exactly-once (element registry), contents-unchanged on a hasher panic after a new allocation, a follow-up script and the final drop with allocator/registry ledgers are checked. Tracked and drop-glue-free element flavours, both back-ends; states with growth_left == 0 and tombstones (in-place rehash) are required to be covered.",
             "One fault per operation; panics inside BuildHasher::clone are outside the alphabet; bounded universes/seeds as listed in the evidence.",
             "5 (C04), 10"),
+    "C06": ("model_checking",
+            "explicit-state BFS of the real HashTable to a fixpoint, against a multiset model",
+            "Closed search over insert_unique (duplicates allowed), find/find_mut, find_entry+remove(+re-insert through the returned VacantEntry), entry with all its paths, retain, extract_if and drain at several cut points, clear, reserve, shrink, clone; in every state the multiset model, find for every id, and iter_hash/iter_hash_mut for every hash of the plan (superset of the elements inserted with it, nothing twice) and S1-S9 are checked.",
+            "Bounded universe / multiplicity <= 2 / table length bound; hash plans incl. adversarial (position, tag) grid.",
+            "5 (C06)"),
+    "C07": ("model_checking",
+            "explicit-state BFS of single HashSets + exhaustive all-ordered-pairs check of visited states against BTreeSet algebra",
+            "Single sets: closed search over insert/replace/take/get_or_insert/get_or_insert_with (lawful and non-equivalent constructor)/entry/remove/extend/retain with set-model comparison. Pairs: for ALL ordered pairs (A, B) of visited states (no symmetry reduction; different layouts, capacities, tombstones; also differently seeded hashers), union/intersection/difference/symmetric_difference (next and fold, size_hint against the true remaining count), is_subset/is_superset/is_disjoint/==, the operators | & ^ - and the assigning forms are compared with the mathematical result and S1-S9.",
+            "Key universe <= 5 for pairs (all subsets occur), bounded state lists as stated in evidence.",
+            "5 (C07)"),
+    "C08": ("model_checking",
+            "explicit-state BFS with a counting allocator; capacity probes in every visited state",
+            "In every visited state: fill with capacity()-len() fresh keys requiring zero allocator calls; reserve(n) for all n up to 4*capacity and boundary values; shrink_to(m) for all m up to capacity+1 and large values with the four-clause contract; shrink_to_fit; clear/drain keep the block; allocation_size() equals the ledger in every state; constructors for all n <= 4096 and boundaries never allocate for 0.",
+            "HashMap instantiations (tracked and plain elements); HashSet/HashTable share the same RawTable paths and are covered through C02/C06 ledgers (allocation_size == ledger in every state).",
+            "5 (C08)"),
+    "C09": ("model_checking",
+            "explicit-state BFS; iterator probes (every kind x every prefix x next/fold/for_each/clone) in every visited state",
+            "In every visited state every iterator kind of HashMap (iter, iter_mut, keys, values, values_mut, into_iter, into_keys, into_values, drain, &map/&mut map IntoIterator) is driven j steps for every j in 0..=len+2 and finished by next/fold/for_each, with size_hint and len checked at every step, None-forever, clone-continues-independently and Default-is-empty; multiset equality with the model.",
+            "HashTable iterators are probed in C03's table configuration; HashSet iterators are thin wrappers over the map's.",
+            "5 (C09)"),
+    "C10": ("model_checking",
+            "explicit-state BFS; every subset of stored elements as predicate for retain/extract_if, every early-drop point, in every visited state",
+            "For every visited state with len <= bound, ALL 2^len predicates for retain and extract_if (with mutation through &mut), every early-drop point of extract_if and drain; predicate call counts, kept/removed/yielded sets, persistence of mutations, allocation kept, S1-S9 (S5 = no probe chain cut by removal during iteration) afterwards.",
+            "HashMap; HashTable's retain/extract_if/drain cuts are operations of C06's alphabet.",
+            "5 (C10)"),
+    "C11": ("model_checking",
+            "exhaustive all-ordered-pairs (target, source) check over visited HashMap states",
+            "For all ordered pairs of visited states (unreduced, incl. unallocated, different bucket counts, tombstoned): == both ways vs the mathematical answer (also with normalised values, a perturbed value and differently seeded hashers), clone_from(target <- source) equals source, owns fresh element instances, old target elements dropped exactly once (ledgers), mutations of either side do not affect the other, clone() equals source.",
+            "Universe 4-5 keys; tracked elements.",
+            "5 (C11)"),
+    "C12": ("fault_enumeration",
+            "allocator-refusal enumeration and boundary-amount enumeration over model-checked states",
+            "In every visited state, try_reserve(additional) for all small amounts, all 7/8*2^k boundaries, isize::MAX, usize::MAX and size-relative boundaries, under a serving allocator (refusing > 1 MiB) and one refusing the next request: never panics, Ok implies capacity, CapacityOverflow exactly when u128 reference arithmetic overflows, AllocError carries exactly the refused layout, every requested layout is valid, and after an error the table dump, contents and live allocations are identical.",
+            "Two element layouts (20-byte tracked pair, 16-byte plain pair).",
+            "5 (C12)"),
+    "C13": ("model_checking",
+            "explicit-state BFS to a REQUIRED fixpoint of all insert/remove interleavings with bounded live size",
+            "The closed space of all insert/remove interleavings with at most n live elements and n+1 keys per class (= unbounded key supply by symmetry) must reach a fixpoint with the bucket count never above 4x that of with_capacity(n); S2 free-slot accounting and lookups of absent keys of every class in every state under a per-call watchdog with the probe-length debug assertion live; mechanism counters for in-place rehash, tombstone reuse and erase-to-EMPTY must be non-zero. SSE2 adds depth-bounded searches around tombstone-saturated seeds.",
+            "n up to 8-19; plans ZERO, CLUSTER, SEQ.",
+            "5 (C13)"),
+    "C14": ("model_checking",
+            "explicit-state BFS whose alphabet contains every entry-style API path, against the association-list model",
+            "entry, entry_ref, raw_entry_mut (from_key, from_key_hashed_nocheck, from_hash) with all insert/or_insert/and_modify/and_replace/insert_key/remove/replace paths and vacant insert variants, rustc_entry with all its paths, and unused drops are operations of a closed search (plus seeds at full load with and without tombstones); discriminant, returned values and resulting contents are compared with the model's plain get/insert/remove, S2 catches a no-grow insert without room.",
+            "HashSet::entry is covered in C07's single-set search.",
+            "5 (C14)"),
+    "C15": ("model_checking",
+            "explicit-state BFS; all N-tuples (N=0..4) of keys for the multi-borrow APIs in every visited state",
+            "In every visited state all N-tuples (N <= 4) of present keys plus an absent key per class for HashMap::get_many_mut/get_many_key_value_mut and HashTable::get_many_mut (also with unlawful equality closures matching id sets): results in request order, pairwise distinct addresses, panic iff two requests resolve to one entry, sentinel writes land exactly in the requested entries.",
+            "Zero-sized values excluded (DESIGN section 9 note 4).",
+            "5 (C15)"),
 }
 NOT_YET = "check not built yet in this revision of /verif (work in progress; see DESIGN.md section 5 for the planned model-checking design)"
 
